@@ -103,9 +103,10 @@ func main() {
 					// goroutines (`go s.finalizeQueue(f)`); several of them woken by
 					// timers of the same instant would race for the channel: each one
 					// gets a gate, so the order is the scheduler's
-					if fd.Name.Name == "finalizeQueue" && fd.Type.Params != nil && len(fd.Type.Params.List) == 1 && len(fd.Type.Params.List[0].Names) == 1 {
+					if (fd.Name.Name == "finalizeQueue" || fd.Name.Name == "processQueue") && fd.Type.Params != nil && len(fd.Type.Params.List) == 1 && len(fd.Type.Params.List[0].Names) == 1 {
 						arg := fd.Type.Params.List[0].Names[0].Name
-						edits = append(edits, edit{p.Fset.Position(fd.Body.Lbrace).Offset + 1, " fileutil.VerifPoint(\"stage.finalize.queue\", " + arg + ".path); "})
+						lab := map[string]string{"finalizeQueue": "stage.finalize.queue", "processQueue": "stage.process.queue"}[fd.Name.Name]
+						edits = append(edits, edit{p.Fset.Position(fd.Body.Lbrace).Offset + 1, " fileutil.VerifPoint(\"" + lab + "\", " + arg + ".path); "})
 						nLock++
 						fmt.Fprintf(os.Stderr, "maporder: lock site %s\n", strings.TrimPrefix(p.Fset.Position(fd.Pos()).String(), repo+"/"))
 					}
